@@ -264,6 +264,21 @@ MUTANTS = [
      [("src/transcode/value.rs", "Value::F32(f) => s.serialize_f32(f),", "Value::F32(f) => s.serialize_f64(f64::from(f)),")]),
     ("r48-marks-swapped", "equivalent", "R48", "C03", "R03.5", "DOCUMENT_END cuts at the event's start index",
      [("src/yaml/chunker.rs", "\t\t\t\t\tlet offset = Event::end_index(&event);", "\t\t\t\t\tlet offset = Event::start_index(&event);")]),
+    ("c04-table-yaml-before-json", "violations", "C04", "C10", "R10.1", "table rows reordered: the YAML trial runs before the JSON trial",
+     [("src/detect.rs", "\t(crate::json::input_matches, Format::Json),", "\t(crate::yaml::input_matches, Format::Yaml), // (moved up)"),
+      ("src/detect.rs", "\t(crate::yaml::input_matches, Format::Yaml),\n\t// Finally", "\t(crate::json::input_matches, Format::Json),\n\t// Finally")]),
+    ("c04-table-wrong-pair", "violations", "C04", "C09", "R09.1|R09.2|R09.4|R10", "the JSON trial is paired with Format::Yaml in the table",
+     [("src/detect.rs", "\t(crate::json::input_matches, Format::Json),", "\t(crate::json::input_matches, Format::Yaml),")]),
+    ("c04-table-match-inverted", "violations", "C04", "C09", "R09", "the closure selects the row's format when the trial answered false",
+     [("src/detect.rs", ".map(|matched| matched.then_some(format))", ".map(|matched| (!matched).then_some(format))")]),
+    ("c01-known-also-detects", "violations", "C01", "C05", "R05.7", "Source::Known runs detection too (result ignored)",
+     [("src/lib.rs", "\t\t\tSource::Known(format) => Ok(format),", "\t\t\tSource::Known(format) => detect::detect_format(input).map(|_| format).map_err(Into::into),")]),
+    ("c03-finish-ignores-eof-flag", "violations", "C03", "C09", "R09.6", "finish_capture records EOF for every successful drain, bounded ones included",
+     [("src/input.rs", "\t\t\tOk(_) if eof => {", "\t\t\tOk(_) if eof || true => {")]),
+    ("c08-claim-never-marks", "violations", "C08", "C08", "R08.1", "Usage::claim() no longer marks the output as used",
+     [("src/toml.rs", "\t\t\t\t*self = Usage::Used;\n", "")]),
+    ("c14-first-keeps-pos", "violations", "C14", "C04", "R04.2", "the cursor pair is rebuilt with pos = 1",
+     [("src/yaml/encoding.rs", "\t\tSelf { pos: 0, len }", "\t\tSelf { pos: 1, len }")]),
     ("r48-stash-ignored", "violations", "R48", "C12", "R12.2", "the reader's own error is discarded in favour of libyaml's",
      [("src/yaml/chunker/parser.rs", "Some(read_err) => read_err,", "Some(_) => io::Error::new(io::ErrorKind::InvalidData, \"read failed\"),")]),
     ("r49-scratch-tail", "violations", "R49", "C07", "R07.7", "remainder taken from the whole scratch array",
